@@ -41,7 +41,7 @@ def formulas(tier):
         "y ~ C(k, levels=lv)", "y ~ 0 + C(k, levels=lv) + x", "y ~ C(g)", "y ~ C(g, Sum):x", "y ~ g", "y ~ g:f",
         "y ~ x + (1|g)", "y ~ x + (x|g)", "y ~ (center(x)|g)", "y ~ (f|g)", "y ~ (0 + f|g)", "y ~ (x|g:f)", "y ~ (scale(x)|g) + (1|f)",
         "y ~ (1|C(k))", "y ~ (x|C(k))",
-        "y ~ binary(f, 'a') + x", "y ~ offset(x) + z",
+        "y ~ binary(f, 'a') + x", "y ~ binary(g) + x", "y ~ B(f):x", "y ~ binary(k, 2)", "y ~ binary(k)", "y ~ offset(x) + z",
         # operators that build several terms from one written factor
         "y ~ f/g", "y ~ f/x", "y ~ g/f/x", "y ~ f:(g + x)", "y ~ (f + g)**2", "y ~ 0 + (f + g)**2", "y ~ f*g*x", "y ~ (f + g):x", "y ~ (f + g)*x", "y ~ 0 + f*g", "y ~ center(x)/f", "y ~ (x + f|g) + f/x",
     ]
